@@ -355,6 +355,10 @@ async def _blockget(case, loop, root):
         first = True
         while True:
             opts = {} if (first and not case.get("explicit_first", True)) else {"block2": (num, False, szx)}
+            if case.get("stale_etag") and (num > 0 or case["stale_etag"] == "all"):
+                # a client that revalidates a cached (by now outdated) representation puts its ETag into every block
+                # request; as it does not match, the file is simply served
+                opts["etags"] = [b"stale-1"]
             resp = await do_request(ctx, loop, 1, path, opts, b"")
             if int(resp.code) != 69:
                 vio.append(V("C19/blockwise-get-fails", "%r size %d szx %d block %d -> %s" % (path, case["size"], szx, num, resp.code)))
@@ -468,6 +472,9 @@ def cases_blockget():
         for szx in range(8):
             for explicit in (True, False):
                 yield {"size": size, "szx": szx, "explicit_first": explicit}
+            if szx in (0, 2, 6):
+                for stale in ("later", "all"):
+                    yield {"size": size, "szx": szx, "explicit_first": True, "stale_etag": stale}
 
 
 # --------------------------------------------------------------------------------------
